@@ -131,7 +131,7 @@ func drawBookPeer(st *simrt.Stream, spec *TorSpec, name string, port int) PeerCf
 	cfg.AnswerDelay = func() time.Duration { return time.Duration(st.Choice(maxDelay+1)) * time.Millisecond }
 	if cfg.Fast && st.Bool(1, 3) {
 		for k := st.Choice(3) + 1; k > 0; k-- {
-			cfg.AllowedFast = append(cfg.AllowedFast, st.Choice(np))
+			cfg.AllowedFast = append(cfg.AllowedFast, spec.DrawPiece(st))
 		}
 	}
 	return cfg
@@ -141,7 +141,7 @@ func bookMain(rc *RunCtx) {
 	st := rc.St
 	w := NewWorld(rc)
 	defer w.Shutdown()
-	spec := GenTorSpec(st, SpecOpts{MaxPieces: 8, Big: st.Bool(1, 6), MultiFile: 1})
+	spec := GenTorSpec(st, SpecOpts{MaxPieces: 8, Big: st.Bool(1, 6), MultiFile: 1, Huge: true})
 	config.PrefetchRate = float64(simrt.Pick(st, 0, 65536, 768*1024))
 	config.SetIdleRate(uint32(simrt.Pick(st, 65536, 0, 16384, 1<<20)))
 	t, err := w.AddTorrent(spec, false, "")
@@ -165,7 +165,7 @@ func bookMain(rc *RunCtx) {
 	defer cancel()
 	nreaders := st.Choice(3)
 	for u := 0; u < nreaders; u++ {
-		off := int64(st.Choice(int(spec.Geo.Length)))
+		off := spec.DrawOffset(st)
 		simrt.GoNamed(fmt.Sprintf("reader%d", u), func() {
 			r := t.NewReader(ctx, off, spec.Geo.Length-off)
 			defer r.Close()
@@ -211,14 +211,14 @@ func bookMain(rc *RunCtx) {
 			}
 		case ev == 3 && len(live) > 0:
 			p := live[st.Choice(len(live))]
-			i := st.Choice(spec.Geo.NPieces)
+			i := spec.DrawPiece(st)
 			simrt.Fault("advertisement-changes")
 			rc.Tracef("%s: have(%d)=%v", p.Cfg.Name, i, !p.Have[i])
 			p.SetHave(i, !p.Have[i])
 		case ev == 4 && len(live) > 0:
 			// repeated / redundant advertisement
 			p := live[st.Choice(len(live))]
-			i := st.Choice(spec.Geo.NPieces)
+			i := spec.DrawPiece(st)
 			if p.Have[i] {
 				simrt.Fault("redundant-have")
 				p.SetHave(i, true)
